@@ -233,10 +233,30 @@ class Encoder:
 
     # -- formulas
     def cons(self, c):
-        re, im = self.poly(c.p)
-        e = self.rp_z3(re)
+        # constraints without trigonometric variables encode independently of the per-query angle bases: the z3 term
+        # of such a constraint OBJECT is cached in the (per path) context -- path conditions are re-encoded per query
+        cache = self.ctx.__dict__.setdefault("_cons_cache", {})
+        hit = cache.get(id(c))
+        if hit is not None and hit[0] is c:
+            _, out, ur, ui, ul = hit
+            self.used_real |= ur
+            self.used_inv |= ui
+            self.used_levels |= ul
+            return out
+        plain = not any(self.ctx.kind[v] == "exp" for (k, vs) in c.p.t for v, e in vs)
+        enc = Encoder(self.ctx) if plain else self
+        re, im = enc.poly(c.p)
+        e = enc.rp_z3(re)
         z = z3.RealVal(0)
-        return {"==": e == z, "!=": e != z, ">": e > z, ">=": e >= z, "<": e < z, "<=": e <= z}[c.op]
+        out = {"==": e == z, "!=": e != z, ">": e > z, ">=": e >= z, "<": e < z, "<=": e <= z}[c.op]
+        if plain:
+            self.used_real |= enc.used_real
+            self.used_inv |= enc.used_inv
+            self.used_levels |= enc.used_levels
+            for k, v in enc.zv.items():
+                self.zv.setdefault(k, v)
+            cache[id(c)] = (c, out, enc.used_real, enc.used_inv, enc.used_levels)
+        return out
 
     def formula(self, f):
         if isinstance(f, Cons):
